@@ -104,7 +104,8 @@ impl<'a> Gen<'a> {
         if self.pct(self.p.bad_attr_pct) {
             self.rng.pick(&["", " ", "\t\n", "_", " _x", "_ ", "_reserved", "\u{00A0}", "\u{2003}\u{3000}", "  _", "_contract_address"]).to_string()
         } else {
-            self.rng.pick(&["action", "k", "a", "é", "x_", " a ", "a_b", "ab", "-", "\u{00A0}x", "contract_address", "code_id", "wasm-k"]).to_string()
+            // control characters are not whitespace: keys made of them, or hiding an underscore behind one, are valid
+            self.rng.pick(&["action", "k", "a", "é", "x_", " a ", "a_b", "ab", "-", "\u{00A0}x", "contract_address", "code_id", "wasm-k", "\u{1}", "\u{0}_hidden", "\u{7f}", "k\u{0}"]).to_string()
         }
     }
 
@@ -124,7 +125,7 @@ impl<'a> Gen<'a> {
         if self.pct(self.p.bad_attr_pct) {
             self.rng.pick(&["", "a", " a ", "\u{00A0}a", " ", "\t", "x"]).to_string()
         } else {
-            self.rng.pick(&["ab", "  ab ", "é", "transfer", "wasm", "evt", "_x", "a b", "wasm-transfer", "wasm-", "wasm-wasm", "execute", "reply", "instantiate", "WASM-ab", "wasm_ab", "sudo", "migrate", "-ab"]).to_string()
+            self.rng.pick(&["ab", "  ab ", "é", "transfer", "wasm", "evt", "_x", "a b", "wasm-transfer", "wasm-", "wasm-wasm", "execute", "reply", "instantiate", "WASM-ab", "wasm_ab", "sudo", "migrate", "-ab", "\u{7f}x", "\u{1}\u{1}", " \u{0}y "]).to_string()
         }
     }
 
@@ -227,7 +228,8 @@ impl<'a> Gen<'a> {
         // now and then a call that logs hundreds of writes in its frame (and takes them all back again, so that
         // storage stays small): whether the frame is committed or abandoned, nothing but its net effect remains
         if self.pct(2) {
-            let n = self.rng.range(70, 120);
+            // one in ten of them logs thousands of writes
+            let n = if self.pct(10) { self.rng.range(2100, 2200) } else { self.rng.range(70, 120) };
             let t = s.tag;
             for i in 0..n {
                 s.writes.push((Binary::from(format!("bulk{}-{}", t, i).into_bytes()), Some(Binary::from(vec![b'B']))));
@@ -270,6 +272,14 @@ impl<'a> Gen<'a> {
                 })),
                 _ => Some(Binary::from(format!("d{}", tag).into_bytes())),
             };
+        }
+        // now and then the very same sub-message twice in a row (it is dispatched twice)
+        if self.pct(3) {
+            if let Some(last) = s.msgs.last().cloned() {
+                if count_scripts(&last.msg) <= 2 {
+                    s.msgs.push(last);
+                }
+            }
         }
         // now and then a response of unusual size: well over a hundred attributes, or dozens of plain messages
         if self.pct(1) {
@@ -513,6 +523,11 @@ match self.rng.below(8) {
         let depth = self.rng.range(1, self.p.max_depth as u64) as usize;
         let roll = if self.pct(self.p.code_ops_pct) { 99 } else { self.rng.below(97) };
         match roll {
+            0..=59 if self.pct(1) => {
+                // a transfer the recipient's balance cannot hold (it already has all but 20 of 2^128 - 1)
+                let amount = *self.rng.pick(&[20u128, 21, 50, 1000]);
+                Top::Exec { sender: self.users[0].clone(), msg: Msg::BankSend { to: self.users[2].clone(), coins: vec![coin(amount, "uz")] }, via: if self.pct(50) { ExecVia::Helper } else { ExecVia::Execute } }
+            }
             0..=59 => {
                 let sender = self.sender(m);
                 // for admin operations pick the right signer half of the time
@@ -552,7 +567,11 @@ match self.rng.below(8) {
                         Top::BumpBlock { dh, dt_nanos: dt, chain_id }
                     }
                 } else {
-                    Top::SetBlock { height: self.rng.range(1, 1_000_000), time_nanos: self.rng.range(1, 2_000_000_000) * 1_000_000_000, chain_id: format!("chain-{}", self.rng.below(5)), next: false }
+                    // boundary values now and then: height 0 / max, time 0, empty chain id
+                    let height = match self.rng.below(12) { 0 => 0, 1 => u64::MAX - 1_000_000, _ => self.rng.range(1, 1_000_000) };
+                    let time_nanos = match self.rng.below(12) { 0 => 0, 1 => 1, _ => self.rng.range(1, 2_000_000_000) * 1_000_000_000 };
+                    let chain_id = if self.pct(8) { String::new() } else { format!("chain-{}", self.rng.below(5)) };
+                    Top::SetBlock { height, time_nanos, chain_id, next: false }
                 }
             }
             94..=95 => Top::QueryBattery,
@@ -572,7 +591,7 @@ match self.rng.below(8) {
                 let kind = match self.rng.below(4) {
                     0 => CodeKind::Lifted,
                     2 | 3 => CodeKind::Partial { reply: self.pct(50), sudo: self.pct(50), migrate: self.pct(50) },
-                    1 => CodeKind::Puppet { code_tag: 50 + self.rng.below(40) as u32, checksum: Some(crate::core::hex(&match self.rng.below(8) { 0 => vec![0u8; 32], 1 => vec![0xFFu8; 32], _ => self.rng.bytes(32) })) },
+                    1 => CodeKind::Puppet { code_tag: 50 + self.rng.below(40) as u32, checksum: Some(crate::core::hex(&match self.rng.below(8) { 0 | 1 => vec![0u8; 32], 2 => vec![0xFFu8; 32], 3 | 4 => vec![0xABu8; 32], _ => self.rng.bytes(32) })) },
                     _ => CodeKind::Puppet { code_tag: 50 + self.rng.below(40) as u32, checksum: None },
                 };
                 let next = m.next_code_id().unwrap_or(u64::MAX);
